@@ -56,8 +56,46 @@ func c04Schema() (*model.Schema, []*model.TypeRef) {
 	for i, t := range types {
 		q.Fields = append(q.Fields, &model.FieldDef{Name: fmt.Sprintf("p%d", i), Type: model.Named("String"), Echo: true, Args: []*model.ArgDef{{Name: "a", Type: t}}})
 	}
+	// the same probes with a NON-NULL argument that has a default: `qN(a: T! = <default>)`
+	for i, t := range types {
+		if t.NonNull {
+			if dv := c04DefaultFor(t); dv != nil {
+				q.Fields = append(q.Fields, &model.FieldDef{Name: fmt.Sprintf("q%d", i), Type: model.Named("String"), Echo: true, Args: []*model.ArgDef{{Name: "a", Type: t, HasDefault: true, Default: dv}, {Name: "other", Type: model.Named("Int")}}})
+			}
+		}
+	}
 	s.Types = append(s.Types, q)
 	return s, types
+}
+
+// c04DefaultFor gives a valid default literal for the non-null probe types (nil: none).
+func c04DefaultFor(t *model.TypeRef) interface{} {
+	in := t.Of
+	if in == nil {
+		return nil
+	}
+	if in.List {
+		return []interface{}{}
+	}
+	switch in.Name {
+	case "Int", "Int64":
+		return int64(10)
+	case "Float", "Float64":
+		return 2.5
+	case "String", "ID", "Custom":
+		return "dflt"
+	case "Boolean":
+		return true
+	case "E":
+		return model.Sym("B")
+	case "In":
+		return model.NewObjLit().Set("req", int64(1))
+	case "In2":
+		return model.NewObjLit().Set("x", 1.5)
+	case "In3":
+		return model.NewObjLit()
+	}
+	return nil
 }
 
 // c04Pool are raw values (document-model literals); JSON/native forms are derived.
@@ -560,6 +598,7 @@ func runC04(c *run.Ctx) {
 	}
 	hist := c04Histories(c, s, sdl, g, types)
 	hist += c04Kennel(c)
+	hist += c04OmittedAndShared(c, s, sdl, g, types)
 	c.MinNontriv = (total + hist) / 3
 	c.Set("requests", total)
 }
@@ -969,4 +1008,116 @@ func c04Kennel(c *run.Ctx) int {
 		}
 	}
 	return done
+}
+
+// c04OmittedAndShared: (a) a non-null argument that has a default is omitted: the resolver must get the default (coerced) or
+// the request must fail - never run without the argument; (b) ONE variable feeds two arguments of different types in one
+// request (in both orders): each resolver receives the coercion of the variable's value to ITS argument type, untouched by
+// what the other position made of it.
+func c04OmittedAndShared(c *run.Ctx, s *model.Schema, sdl string, g *model.Graph, types []*model.TypeRef) int {
+	idx := map[string]int{}
+	for i, t := range types {
+		idx[t.String()] = i
+	}
+	n := 0
+	for _, bk := range []string{"iface", "any"} {
+		h, err := back.Build(bk, s, sdl, g)
+		if err != nil {
+			return n
+		}
+		// (a)
+		for i, t := range types {
+			fd := s.Type("Query").Field(fmt.Sprintf("q%d", i))
+			if fd == nil {
+				continue
+			}
+			for _, text := range []string{fmt.Sprintf("{ q%d }", i), fmt.Sprintf("{ q%d(other: 3) }", i), fmt.Sprintf("query($o: Int) { q%d(other: $o) }", i)} {
+				out := Do(h, Request{Text: text, Entry: n}, nil)
+				n++
+				c.Eval("omitted|"+text+bk, true)
+				c.Bucket("form", "omitted-non-null-argument-with-default")
+				var call *back.Call
+				for k := range out.Calls {
+					if out.Calls[k].Key.Field == fd.Name {
+						call = &out.Calls[k]
+					}
+				}
+				diag := ""
+				switch {
+				case out.Panic != nil:
+					diag = "panic: " + fmt.Sprint(out.Panic)
+				case call == nil && len(out.ErrPaths) == 0:
+					diag = "resolver not invoked and no error reported"
+				case call != nil:
+					want, _ := ref.CoerceIn(s, t, fd.Args[0].Default)
+					if got, has := call.Raw["a"]; !has || got == nil {
+						diag = "resolver invoked WITHOUT its non-null argument (neither the default nor an error)"
+					} else if !ref.Equal(c04Canon(got), want) {
+						diag = "resolver received " + ref.Render(c04Canon(got)) + " for the omitted argument, its default is " + ref.Render(want)
+					}
+				}
+				if diag != "" {
+					c.Violation("c04-omitted-default", map[string]interface{}{"backend": bk, "field": model.FieldSDL(fd, model.SDLOpts{}), "document": text, "diag": diag, "observed": out.Describe()})
+				}
+			}
+		}
+		// (b)
+		pairs := []struct {
+			vtype  string
+			val    interface{}
+			ta, tb string
+		}{
+			{"Float64", 0.1, "Float", "Float64"}, {"Float64", 1234567.891, "Float", "Float64"}, {"Float64!", 0.30000000000000004, "Float", "Float64!"},
+			{"ID", "007", "ID", "String"}, {"String", "0012", "ID", "String"}, {"Int", float64(7), "Int", "Int64"}, {"Int64", int64(2147483647), "Int64", "Int"},
+			{"[Float64]", []interface{}{0.1, 0.2}, "[Float]", "[Float64]"},
+		}
+		for _, pr := range pairs {
+			ia, oka := idx[pr.ta]
+			ib, okb := idx[pr.tb]
+			if !oka || !okb {
+				continue
+			}
+			for order := 0; order < 2; order++ {
+				fa, fb := fmt.Sprintf("p%d", ia), fmt.Sprintf("p%d", ib)
+				text := fmt.Sprintf("query($v: %s) { a: %s(a: $v) b: %s(a: $v) }", pr.vtype, fa, fb)
+				if order == 1 {
+					text = fmt.Sprintf("query($v: %s) { b: %s(a: $v) a: %s(a: $v) }", pr.vtype, fb, fa)
+				}
+				vars := map[string]interface{}{"v": pr.val}
+				out := Do(h, Request{Text: text, Vars: vars, Entry: n}, nil)
+				n++
+				c.Eval("shared|"+text+bk, true)
+				c.Bucket("form", "one-variable-two-argument-types")
+				for _, pos := range []struct{ key, tname string }{{"a", pr.ta}, {"b", pr.tb}} {
+					t := types[idx[pos.tname]]
+					want, werr := ref.CoerceIn(s, t, pr.val)
+					var call *back.Call
+					for k := range out.Calls {
+						if out.Calls[k].Key.Key == pos.key {
+							call = &out.Calls[k]
+						}
+					}
+					diag := ""
+					switch {
+					case out.Panic != nil:
+						diag = "panic: " + fmt.Sprint(out.Panic)
+					case call == nil && len(out.ErrPaths) == 0:
+						diag = "resolver for " + pos.key + " not invoked and no error reported"
+					case call != nil && werr == nil && !ref.Equal(c04Canon(call.Raw["a"]), want):
+						ref.Lenient = true
+						lw, lerr := ref.CoerceIn(s, t, pr.val)
+						ref.Lenient = false
+						if lerr != nil || !ref.Equal(c04Canon(call.Raw["a"]), lw) {
+							diag = fmt.Sprintf("resolver for %s (argument type %s) received %s, the variable's value coerced to that type is %s", pos.key, pos.tname, ref.Render(c04Canon(call.Raw["a"])), ref.Render(want))
+						}
+					}
+					if diag != "" {
+						c.Violation("c04-shared-variable", map[string]interface{}{"backend": bk, "document": text, "vars": fmt.Sprintf("%#v", vars), "diag": diag, "observed": out.Describe()})
+						break
+					}
+				}
+			}
+		}
+	}
+	return n
 }
